@@ -13,7 +13,7 @@ import (
 
 // Flags are the command line and environment of one staticcheck run.
 type Flags struct {
-	Go     string `json:"go"`     // "module" or "1.N" (N >= 22, see rule)
+	Go     string `json:"go"`     // "module" or "1.N" (N >= 23, see the assumptions)
 	Tags   bool   `json:"tags"`   // -tags special
 	Tests  bool   `json:"tests"`  // -tests
 	Checks string `json:"checks"` // "" = flag not passed
@@ -132,7 +132,10 @@ var depFactToggles = map[string]bool{"dep_deprecated": true, "dep_deprecated_met
 
 var confLevels = []string{"root", "top", "dep", "mid", "parent"}
 
-func lst(xs ...string) *[]string { return &xs }
+func lst(xs ...string) *[]string {
+	l := append([]string{}, xs...) // never nil: an empty list is written as `key = []`, absence is a nil pointer
+	return &l
+}
 
 var (
 	menuChecks = []*[]string{nil, lst("all"), lst("inherit", "-SA1019"), lst("inherit", "ST1003"), lst("SA*", "U1000"), lst("inherit", "-U1000"), lst("all", "-ST1000", "-SA4017"), lst("inherit", "-SA4023", "-ST1001"), lst()}
@@ -141,7 +144,7 @@ var (
 	menuHTTP   = []*[]string{nil, lst("200"), lst("inherit", "418"), lst()}
 
 	flagNames  = []string{"go", "tags", "tests", "checks", "goos"}
-	goValues   = []string{"module", "1.22", "1.23", "1.24", "1.25", "1.26"}
+	goValues   = []string{"module", "1.23", "1.24", "1.25", "1.26"}
 	chkValues  = []string{"", "all", "inherit,-SA1019", "SA*", "all,-U1000", "ST1003,SA4017,SA4023", "inherit,ST1003", "inherit,-SA4017,-ST1001"}
 	goModVals  = []string{"1.26.0", "1.23", "1.24"}
 	touchFiles = []string{"top/top.go", "dep/dep.go", "mid/mid.go", "go.mod", "staticcheck.conf", "top/staticcheck.conf", "top/top_test.go", "dep/tag_special.go"}
